@@ -1,5 +1,5 @@
 (* C03 - lossless codecs invert exactly, never expand, accept their own output. *)
-From WR Require Import Lib.Bits Mpq.Sparse Mpq.CompressWrap Proofs.Compress_proofs.
+From WR Require Import Lib.Bits Mpq.Sparse Mpq.CompressWrap Proofs.Compress_proofs Proofs.Sparse_proofs.
 Open Scope N_scope.
 
 Theorem C03_store_raw_never_expands :
@@ -49,9 +49,8 @@ Theorem C03_limits_refuted_bzip2_2MiB :
 Proof. exact limits_refuted_bzip2_2MiB. Qed.
 Print Assumptions C03_limits_refuted_bzip2_2MiB.
 
-(* sparse decoder inverts every well-formed token stream; the missing half
-   (sparse_compress emits a well-formed token stream of its input) is validated by the
-   correspondence check, not proved: this is sparse_roundtrip_partial of DESIGN.md *)
+(* sparse decoder inverts every well-formed token stream (the decoder half; the full round trip
+   is C03_sparse_roundtrip below) *)
 Theorem C03_sparse_roundtrip_partial :
   forall ts, Forall (fun t => token_ok t = true) ts ->
     lenN (tokens_data ts) < 4294967296 ->
@@ -60,3 +59,11 @@ Theorem C03_sparse_roundtrip_partial :
     = SOk (tokens_data ts).
 Proof. exact sparse_decode_tokens. Qed.
 Print Assumptions C03_sparse_roundtrip_partial.
+
+(* the sparse codec as a whole: for every non-empty input below 4 GiB the encoder terminates with an
+   output that the decoder turns back into the input *)
+Theorem C03_sparse_roundtrip :
+  forall data, data <> [] -> lenN data < 4294967296 ->
+    exists c, sparse_compress data = Some c /\ sparse_decompress c (lenN data) = SOk data.
+Proof. exact sparse_roundtrip. Qed.
+Print Assumptions C03_sparse_roundtrip.
